@@ -5,6 +5,7 @@ package gsev
 
 import (
 	"encoding/binary"
+	"sync/atomic"
 
 	"github.com/Fantom-foundation/lachesis-base/hash"
 	"github.com/Fantom-foundation/lachesis-base/inter/dag"
@@ -21,6 +22,10 @@ type Ev struct {
 	Batch, Pos int
 	Bad        bool
 	OnLamport  func(*Ev)
+	// C14 concurrent mode: called on the first ID() read of this copy (PushEvent reads it first thing
+	// under the buffer's mutex: the linearisation point of the push)
+	OnFirstID func(*Ev)
+	idRead    int32
 }
 
 // ID maps an event number to a 32-byte id: epoch 1, lamport in the usual place, the number in
@@ -47,7 +52,12 @@ func New(cid int, eid uint64, parents []uint64, size int, lamport uint32) *Ev {
 	return e
 }
 
-func (e *Ev) ID() hash.Event { return ID(e.Eid) }
+func (e *Ev) ID() hash.Event {
+	if e.OnFirstID != nil && atomic.CompareAndSwapInt32(&e.idRead, 0, 1) {
+		e.OnFirstID(e)
+	}
+	return ID(e.Eid)
+}
 func (e *Ev) Size() int      { return e.Sz }
 func (e *Ev) String() string { return "ev" }
 func (e *Ev) Lamport() idx.Lamport {
